@@ -46,6 +46,12 @@ func (p propSpec) Deadline(tier int) time.Duration { return p.DeadlineT[tier] }
 const techSX = "symbolic execution of the real code's go/ssa (GoSX) with SMT (z3) deciding every branch and assertion over all values of the symbolic inputs within the stated bounds; counterexamples replayed natively"
 
 var properties = map[string]propSpec{
+	"C20": {
+		Level: "translation_validation", Technique: "translation validation of grammar.peg vs the compiled table: (1) the table is obtained by executing the real package init in GoSX and walked in lock-step with an independent reading of grammar.peg (structure, order, labels, operators, positions); (2) every literal / class / any matcher is run by the real engine on symbolic input and z3 decides, for all runes, agreement with the grammar text; (3) every action and predicate is executed through its callon wrapper on symbolic label values / matched text and z3 decides equality with the grammar's own code block compiled from grammar.peg",
+		Bounds:  [2]string{"all 37 rules, all nodes (complete walk); matchers: input of every byte string <= 4 bytes (<= literal length for literals), i.e. every rune incl. ill-formed UTF-8 and EOF; code blocks: all 50, label values symbolic within the sample family (strings <= 2 bytes, selectors, operators, 4 expression shapes, segment lists), matched text <= 3 symbolic bytes or a quoted template", "same"},
+		Outside: "label values outside the sample family; the generic PEG engine itself (C15 compares its behaviour with the reference recogniser); a consistent edit of both files (C15's job)",
+		StepBudget: 600_000_000,
+	},
 	"C19": {
 		Level: "model_checking", Technique: techSX + "; differential against a reference renderer; fmt is modelled exactly for the verbs ast.go uses (%s %v %q %[n]x with Stringer/error methods executed from source)",
 		Bounds:  [2]string{"18 parser-produced trees (every node kind, operator, binding mode, selector type; nasty literals) x indent of every string <= 2 bytes x start level 0..3; hand-built trees with symbolic selector parts (<= 1 byte; 2 thorough), literal (<= 1 ASCII byte; 2 thorough: %q decided per byte), binding name, 9 operator values (incl. out of range), 3 selector types, 4 wrappers; three dumps in sequence with different symbolic indents", "same"},
